@@ -99,6 +99,8 @@ def c13(tier, seed, replay=None):
                 why.append("an argument was modified")
             if o.get("covcov") != o["x"]:
                 why.append("covector is not an involution")
+            if not o.get("inner_scaled_ok", True):
+                why.append("inner product of extended-precision leaves loses range / precision (<2^600 x, 2^600 y> != 2^1200 <x, y>)")
             if not o.get("closed", True):
                 why.append("a vector returned by an operation of the space does not lie in that space (container type %s or space differs)" % (o.get("named") or "-"))
             if o.get("inner_yx") != o.get("inner") or not o.get("inner_real"):
@@ -446,9 +448,11 @@ def c18(tier, seed, replay=None):
     for order in (1, 2):
         for pre in (False, True):
             jobs.append({"kind": "paths", "modes": ["fwd", "rev"], "order": order, "default": True, "pre": pre})
-    kinds = ["scalar", "array", "complex", "container", "matrix"]
+    kinds = ["scalar", "array", "complex", "container", "matrix", "outtuple", "outlist", "outdict"]
     for arg in kinds:
         for mode in ("fwd", "rev"):
+            if arg == "outdict" and mode == "fwd":
+                continue          # autograd's dict constructor has no forward-mode rule
             for order in (1, 2):
                 jobs.append({"kind": "correct", "arg": arg, "mode": mode, "order": order, "n": n})
             defects = ["factor", "sign", "entry", "nan"] + (["transpose"] if arg == "matrix" else []) + (["conj"] if arg == "complex" else []) + \
